@@ -273,6 +273,12 @@ async fn boot_and_judge(h: &mut History, case: Case<'_>, rng: &mut Rng, rep: &mu
                 // when a block arrives) depends on the order of arrival, and a restart replays the
                 // files in timestamp order
                 // (either way round: B may also end on a longer branch that A held but did not prefer)
+                if tie && !file_sorts_first(h, &tip, &case.mark.tip) {
+                    // observation only: which of two equal-length tips a restart ends on is not
+                    // simply the one whose file is listed first (failed reorganisation attempts on
+                    // the way, e.g. through an invalid sibling, change it)
+                    rep.count("ties_where_the_restart_kept_the_tip_listed_later");
+                }
                 let holds_all = chain.blocks.contains_key(&case.mark.tip) && h.b.store.ancestors(&case.mark.tip).iter().rev().take(4).all(|x| chain.blocks.contains_key(x)) && case.mark.known.contains(&tip) && h.b.store.chain_valid(&tip);
                 rep.violation(
                     if tie {
@@ -330,6 +336,13 @@ async fn boot_and_judge(h: &mut History, case: Case<'_>, rng: &mut Rng, rep: &mu
         }
     }
     rep.nontrivial(&format!("{}|{}", case.label, case.files.len()));
+}
+
+/// block files are named <timestamp>-<hash>.sai and loaded in name order: does the file of `a` come
+/// before the file of `b`?
+fn file_sorts_first(h: &History, a: &Hash, b: &Hash) -> bool {
+    let key = |x: &Hash| format!("{}-{}", h.b.store.get(x).ts, hex::encode(x));
+    h.b.store.has(a) && h.b.store.has(b) && key(a) < key(b)
 }
 
 /// hand a block to the node the way the verification thread does
@@ -681,6 +694,44 @@ async fn one_history(ctx: &Ctx, rng: &mut Rng, gp: u64, len: usize, fork_permill
             }
         }
         apply_op(&mut files, &op, None);
+    }
+    // crashes DURING a start-up: the restarted node's own storage operations (it re-saves what it
+    // loads and cleans up) are journalled, and the next start-up begins from every prefix of them
+    // with the interrupted write torn the way the measured protocol leaves it
+    for (k, f) in captured.iter().take(if ctx.thorough { 6 } else { 2 }) {
+        let key = h.b.actors[h.cfg.replica_key].clone();
+        let io = MemIo::from_files(f.clone());
+        io.set_journal(true);
+        let mut b_node = Node::new(&key, &h.cfg.params, io, VClock::new(T0 + 7_200_000), vec![], "http://b.example:1");
+        if b_node.init().await.is_err() {
+            continue;
+        }
+        let bj: Vec<JournalOp> = b_node.io.lock().journal.clone();
+        rep.add("startup_journal_ops", bj.len() as u64);
+        let writes: Vec<usize> = bj.iter().enumerate().filter(|(_, o)| o.kind == JournalKind::Write && o.key.starts_with(BLOCK_DIR)).map(|(i, _)| i).collect();
+        let mut picks: Vec<usize> = vec![];
+        for i in 0..writes.len() {
+            if i < 3 || i + 3 >= writes.len() || i % (writes.len() / 4).max(1) == 0 {
+                picks.push(writes[i]);
+            }
+        }
+        let (via_rename, _, _) = crate::io::io_model();
+        let m = mark_at(*k).clone();
+        for j in picks {
+            let mut files_j = f.clone();
+            for op in &bj[..j] {
+                apply_op(&mut files_j, op, None);
+            }
+            let op = &bj[j];
+            let cut = op.data.len() / 2;
+            if via_rename {
+                files_j.insert(format!("{}{}", op.key, crate::io::TMP_SUFFIX), op.data[..cut].to_vec());
+            } else {
+                apply_op(&mut files_j, op, Some(&op.data[..cut]));
+            }
+            rep.count("startup_crash_variants");
+            boot_and_judge(&mut h, Case { files: files_j, mark: &m, in_progress: vec![], clean: false, label: format!("restart at ops[0..{}], crash in the start-up's own op {} ({:?} {}) torn at byte {} of {}", k, j, op.kind, op.key.rsplit('/').next().unwrap_or(""), cut, op.data.len()), invalid: &invalid }, rng, rep, &witness).await;
+        }
     }
     // restarts at clean points where the node knows a side block that then wins
     let side_points: Vec<(usize, BTreeMap<String, Vec<u8>>)> = side_captured;
